@@ -829,7 +829,7 @@ fn make(ty: &str, present: Option<&[String]>, dfl: &[String], seed: u64) -> Resu
         related_topic_name: r.string() + "r",
         filter_class_name: r.string() + "f",
         filter_expression: r.string(),
-        expression_parameters: (0..r.below(3)).map(|_| r.string()).collect(),
+        expression_parameters: (0..r.below(6)).map(|_| r.string()).collect(),
       };
       Obj::Drd(DiscoveredReaderData {
         reader_proxy: ReaderProxy::new(g, has("expects_inline_qos"), optv("unicast_locator_list", ul), optv("multicast_locator_list", ml)),
